@@ -122,7 +122,7 @@ def fault_monitor(ck, thorough):
     me = (ck.shard - 2) if ck.nshards >= 3 else 0
     # ---- no fault: the context itself must restore
     for name, sc in scenarios().items():
-        sc(lambda f: None)
+        ck.call("patchleak", f"{name}/no_fault", "retain_ltype", sc, lambda f: None, witness={"scenario": name})
         ck.count("patchleak", f"{name}/no_fault", key=(name, "clean"))
         leaks = instrument.patch_leaks()
         ck.check(not leaks, "patchleak", f"{name}/no_fault", "retain_ltype", "torch_internals_left_patched", {"scenario": name, "left": leaks})
@@ -144,7 +144,13 @@ def fault_monitor(ck, thorough):
     total_points, swept = 0, 0
     for si, (name, sc) in enumerate(scenarios().items()):
         with FaultInjector(PREFIXES, k=None) as fi:
-            sc(lambda f, fi=fi: setattr(fi, "armed", f))
+            try:
+                sc(lambda f, fi=fi: setattr(fi, "armed", f))
+            except Exception as e:  # a fault-free run of a valid scenario must not raise (typically a consequence of an earlier leak)
+                ck.violation("patchleak", f"{name}/dry_run", "retain_ltype", "scenario_raised_without_fault:" + type(e).__name__,
+                             {"scenario": name, "error": repr(e)[:300], "left_patched": instrument.patch_leaks()})
+                instrument.restore_patches()
+                continue
             n = fi.count
         if me == 0:
             ck.note(f"failpoints/{name}", n)
